@@ -25,7 +25,7 @@ def run(tier, seed, broken_proof=False):
     common.setup_impl_env()
     engines = [e for e in (ENGINES_QUICK if tier == "quick" else ENGINES_ALL) if usable(e)]
     unus = [e for e in (ENGINES_QUICK if tier == "quick" else ENGINES_ALL) if e not in engines]
-    count = 60 if tier == "quick" else 500
+    count = 60 if tier == "quick" else 250
     violations = []
     strata = Counter()
     corr = []
